@@ -1043,6 +1043,16 @@ def k_api_life(spec):
                         inside.append([a_ is api, api.connected])
                         if kindn == "ctx_body_raises":
                             raise KeyError("body")
+                        if kindn == "ctx_body_runtime":
+                            raise RuntimeError("body")
+                        if kindn == "ctx_body_connerr":
+                            raise ConnectionResetError("body")
+                        if kindn == "ctx_body_failing_op":
+                            state["mode"] = "garbage"
+                            if spec["api"] == 1:
+                                await api.get_state()
+                            else:
+                                await api.get_shutter_state()
             except Exception as e:  # noqa: BLE001
                 o["raised"] = type(e).__name__
             await asyncio.sleep(0.05)
@@ -1087,7 +1097,9 @@ def o_c18(spec, obs):
             else:
                 if k == "ctx_ok" and o["raised"]:
                     return True, "context raised %s" % o["raised"]
-                if k == "ctx_body_raises" and o["raised"] != "KeyError":
+                want = {"ctx_body_raises": "KeyError", "ctx_body_runtime": "RuntimeError", "ctx_body_connerr": "ConnectionResetError",
+                        "ctx_body_failing_op": "RuntimeError"}.get(k)
+                if want and o["raised"] != want:
                     return True, "body exception became %r" % o["raised"]
                 if o["inside"] != [[True, True]]:
                     return True, "inside context: %r" % o["inside"]
